@@ -126,6 +126,49 @@ def run(repo, tier):
     out += mono_rule(fi)
     out += scratch_rule(fi)
     out += dp_rules(fi)
+    out += offset_rules(repo, fi)
+    return out
+
+
+def offset_rules(repo, fi):
+    """writer/reader agreement on the table offset: the quantity subtracted when scores are placed into the table is the one
+    that is returned, stored per motif, and added back / subtracted by the consumers"""
+    out = []
+    role = "the returned table offset is the quantity the table is indexed relative to"
+    rets = [n for n in walk_no_nested(fi.node) if isinstance(n, ast.Return)]
+    place = [s for s in walk_no_nested(fi.node) if isinstance(s, ast.Assign) and unparse(s.targets[0]) == "idx" and "int_log_pwm[i, 0]" in unparse(s.value)]
+    allocs = [unparse(s.value) for s in walk_no_nested(fi.node) if isinstance(s, ast.Assign) and ("numpy.empty(" in unparse(s.value) or "numpy.ones(" in unparse(s.value))]
+    if not rets or not isinstance(rets[-1].value, ast.Tuple) or not place:
+        return [unrecognised("OFFSET", fi, role, "return tuple / first-column placement not found")]
+    v = place[0].value
+    base = unparse(v.right) if isinstance(v, ast.BinOp) and isinstance(v.op, ast.Sub) else None
+    ret0 = unparse(rets[-1].value.elts[0])
+    if base is None:
+        out.append(unrecognised("OFFSET", fi, role, unparse(v)))
+    elif ret0 != base:
+        out.append(violation("OFFSET", fi, role, "scores are placed at `score - %s` but `%s` is returned as the offset: every consumer reads the "
+                             "p-value of a shifted bin whenever the two differ" % (base, ret0), rets[-1],
+                             witness={"placed_relative_to": base, "returned": ret0}))
+    elif not all(("largest - %s + 1" % base) in a for a in allocs if "largest" in a):
+        out.append(violation("OFFSET", fi, role, "table size does not use the same offset: %s" % allocs, fi.node))
+    else:
+        out.append(holds("OFFSET", fi, role, "idx = score - %s; size largest - %s + 1; return %s" % (base, base, ret0), rets[-1]))
+    # consumers
+    role = "consumers use the returned offset with the matching sign (threshold: bin + offset; lookup: bin - offset)"
+    a = repo.func(F + "._all_pwm_to_mapping")
+    f = repo.func(F + ".fimo")
+    k = repo.func(F + "._fast_hits")
+    ta = [unparse(s) for s in walk_no_nested(a.node) if isinstance(s, ast.Assign)]
+    tf = [unparse(s) for s in walk_no_nested(f.node) if isinstance(s, ast.Assign)]
+    tk = [unparse(s) for s in walk_no_nested(k.node) if isinstance(s, ast.Assign)]
+    ok = "smallest, logpdf = _pwm_to_mapping(motifs[:, s:e], bin_size)" in ta and "smallests[i] = smallest" in ta and \
+        "_score_thresholds[i] = (idx[0] + _smallest[i]) * bin_size" in tf and "score_idx = int(score / bin_size) - smallest[k]" in tk
+    if ok:
+        out.append(holds("OFFSET", f, role, "(idx[0] + _smallest[i]) * bin_size ; int(score / bin_size) - smallest[k]", f.node))
+    elif any("(idx[0] - _smallest[i])" in t for t in tf) or any("int(score / bin_size) + smallest[k]" in t for t in tk):
+        out.append(violation("OFFSET", f, role, "offset is applied with the wrong sign", f.node))
+    else:
+        out.append(unrecognised("OFFSET", f, role, "consumer statements differ from the confirmed form"))
     return out
 
 
